@@ -155,6 +155,16 @@ def check_bytes(bs, off_variants=True):
         return out
     if ins.l > len(bs) or ins.b != bs[:ins.l]:
         out.append(('overread', ins.m.name, 'reports length %d / bytes %r for input %s' % (ins.l, ins.b, bs.hex())))
+    # "nor consumes bytes beyond the instruction": the instruction's extent according to the independent IA-32 decoder (where it covers the
+    # opcode and no prefix is superfluous)
+    try:
+        from specs import x86dec
+        from checks import C01
+        sp = x86dec.decode(bs)
+        if sp is not None and C01.meaningful_prefixes(sp, bs) and sp['length'] != ins.l:
+            out.append(('length', C01.opkey(sp, bs), '%s: %d bytes consumed, the instruction has %d' % (bs[:max(ins.l, sp['length'])].hex(), ins.l, sp['length'])))
+    except Exception:
+        pass
     for fmt, tag in ((None, 'intel'), ('att_syntax binutils', 'att')):
         try:
             t = ins.__str__(fmt) if fmt else str(ins)
@@ -240,6 +250,18 @@ def asm_lines(tier, seed):
 class _TO(Exception):
     pass
 
+_MN = None
+def line_shape(line):
+    """coarse shape of an input line (valid mnemonic first or not, 1 / 2 / 3+ tokens): a crash class is (exception, raising function, message, shape), so that a crash that
+       spreads to other kinds of input is a new class"""
+    global _MN
+    if _MN is None:
+        from miasmx.arch.ia32_arch import x86mndb
+        _MN = set(x86mndb.mnemo_lookup.keys()) | {'lock', 'rep', 'repz', 'repnz', 'repe', 'repne'}
+    toks = line.split()
+    if not toks: return 'empty'
+    return ('M' if toks[0].lower() in _MN else 'X') + ('1' if len(toks) == 1 else '2' if len(toks) == 2 else '3+')
+
 def check_line(line):
     from miasmx.arch.ia32_arch import x86mnemo
     out = []
@@ -255,7 +277,7 @@ def check_line(line):
         except _TO:
             out.append((tag + '-loops', 'timeout', '%s(%r) did not return within 10 s' % (tag, line)))
         except Exception as ex:
-            out.append((tag + '-crash', exc_class(ex), '%s(%r) raised %s: %s' % (tag, line, type(ex).__name__, str(ex)[:80])))
+            out.append((tag + '-crash', exc_class(ex) + '|' + line_shape(line), '%s(%r) raised %s: %s' % (tag, line, type(ex).__name__, str(ex)[:80])))
         finally:
             signal.alarm(0)
     return out
@@ -303,9 +325,10 @@ def main(argv):
     lines = asm_lines(tier, seed)
     nparts = 64
     B = 2000
-    with multiprocessing.get_context('fork').Pool(min(16, os.cpu_count() or 4)) as pool:
-        r1 = pool.map(_work_dis, [(i, nparts, tier, seed) for i in range(nparts)], chunksize=1)
-        r2 = pool.map(_work_asm, [lines[i:i + B] for i in range(0, len(lines), B)], chunksize=1)
+    # the totality contracts are run-time contracts: they run under the repository's own interpreter (/venv/bin/python), not under the tooling
+    # interpreter (the parser's error path, for one, inspects call frames and behaves differently under another Python version)
+    r1 = common.native_pool('checks.C10', '_work_dis', [(i, nparts, tier, seed) for i in range(nparts)])
+    r2 = common.native_pool('checks.C10', '_work_asm', [lines[i:i + B] for i in range(0, len(lines), B)])
     for results, kind in ((r1, 'bytes'), (r2, 'line')):
         groups = {}
         for r in results:
